@@ -6,7 +6,7 @@ use strum_macros::Display;
 
 use crate::context::Context;
 
-use std::fmt;
+use std::{cell::Cell, fmt};
 
 /// Assembly uses constant expressions to avoid copying magic numbers around.
 /// Expr represents these constant expressions.
@@ -16,7 +16,10 @@ use std::fmt;
 /// to a specific low level type needed by instructions.
 
 /// How deep symbols may be defined through other symbols
-const MAX_SYMBOL_DEPTH: usize = 100;
+const MAX_SYMBOL_DEPTH: usize = 32;
+
+/// How many nodes may be evaluated for one expression
+const MAX_EVALUATION_STEPS: usize = 1_000_000;
 
 #[derive(Clone, PartialEq, Eq, Debug)]
 pub enum Expr {
@@ -113,24 +116,37 @@ impl Expr {
     }
 
     pub fn run(&self, constants: &dyn Context) -> Result<i64, ExprRunError> {
-        self.run_nested(constants, 0)
+        self.run_nested(constants, 0, &Cell::new(0))
     }
 
-    /// Evaluate expression, `depth` counts symbols which are resolved through other symbols
-    fn run_nested(&self, constants: &dyn Context, depth: usize) -> Result<i64, ExprRunError> {
+    /// Evaluate expression, `depth` counts symbols which are resolved through other symbols,
+    /// `steps` counts all evaluated nodes (symbols aren't cached, so definitions like
+    /// `.equ b = a + a`, `.equ c = b + b`, ... need exponential time)
+    fn run_nested(
+        &self,
+        constants: &dyn Context,
+        depth: usize,
+        steps: &Cell<usize>,
+    ) -> Result<i64, ExprRunError> {
+        steps.set(steps.get() + 1);
+        if steps.get() > MAX_EVALUATION_STEPS {
+            return Err(ExprRunError::ArithmeticError(
+                "Expression is too complex to evaluate".to_string(),
+            ));
+        }
         match self {
             Expr::Ident(ident) => match constants.get_expr(ident) {
                 Some(Expr::Const(address)) => Ok(address),
                 Some(_) if depth >= MAX_SYMBOL_DEPTH => Err(ExprRunError::ArithmeticError(
                     format!("Definition of {} is recursive or nested too deep", ident),
                 )),
-                Some(expr) => expr.run_nested(constants, depth + 1),
+                Some(expr) => expr.run_nested(constants, depth + 1, steps),
                 None => Err(ExprRunError::MissingIdentifier(ident.clone())),
             },
             Expr::Const(value) => Ok(*value),
             Expr::Func(ident, argument) => {
                 if let Expr::Ident(name) = &**ident {
-                    let value = argument.run_nested(constants, depth)?;
+                    let value = argument.run_nested(constants, depth, steps)?;
                     let ret_val = match name.to_lowercase().as_str() {
                         "low" => (value as u64 & 0xff) as i64,
                         "high" | "byte2" => ((value as u64 & 0xff00) >> 8) as i64,
@@ -169,8 +185,8 @@ impl Expr {
                 }
             }
             Expr::Binary(binary) => {
-                let left = binary.left.run_nested(constants, depth)?;
-                let right = binary.right.run_nested(constants, depth)?;
+                let left = binary.left.run_nested(constants, depth, steps)?;
+                let right = binary.right.run_nested(constants, depth, steps)?;
                 match binary.operator {
                     BinaryOperator::Add => match left.checked_add(right) {
                         Some(value) => Ok(value),
@@ -252,7 +268,7 @@ impl Expr {
             }
             Expr::Unary(unary) => match unary.operator {
                 UnaryOperator::Minus => {
-                    let value = unary.expr.run_nested(constants, depth)?;
+                    let value = unary.expr.run_nested(constants, depth, steps)?;
                     match value.checked_neg() {
                         Some(value) => Ok(value),
                         None => Err(ExprRunError::ArithmeticError(format!(
@@ -262,11 +278,11 @@ impl Expr {
                     }
                 }
                 UnaryOperator::BitwiseNot => {
-                    let value = unary.expr.run_nested(constants, depth)?;
+                    let value = unary.expr.run_nested(constants, depth, steps)?;
                     Ok(!value)
                 }
                 UnaryOperator::LogicalNot => {
-                    let value = unary.expr.run_nested(constants, depth)?;
+                    let value = unary.expr.run_nested(constants, depth, steps)?;
                     Ok((value == 0) as i64)
                 }
             },
